@@ -275,8 +275,48 @@ fn main() {
                 bad = true;
             }
         }
+        "c10c" => {
+            // concurrent callers only, to be run with a HIGH preemption rate: three caller threads
+            // query one sequential problem (hand-written and builder-made model) twice each while
+            // miri's seeded scheduler preempts them inside the library's own arithmetic - the
+            // granularity the simulated callers (interleaved at model calls) cannot reach
+            let ns = n.min(5);
+            let xs = DVector::from_iterator(ns, (0..ns).map(|i| i as f64 * 0.7));
+            let ys = DVector::from_iterator(ns, (0..ns).map(|i| y[(i, 0)]));
+            let ws = DVector::from_iterator(ns, (0..ns).map(|i| w[i]));
+            for builder in [false, true] {
+                macro_rules! go {
+                    ($mk:expr) => {{
+                        let prob = LevMarProblemBuilder::new($mk(&start))
+                            .observations(ys.clone())
+                            .weights(ws.clone())
+                            .build()
+                            .unwrap();
+                        let alone = observe(&prob);
+                        let outs = std::thread::scope(|sc| {
+                            let hs: Vec<_> = (0..2).map(|_| sc.spawn(|| (observe(&prob), observe(&prob)))).collect();
+                            let mine = (observe(&prob), observe(&prob));
+                            let mut v = vec![mine];
+                            v.extend(hs.into_iter().map(|h| h.join().unwrap()));
+                            v
+                        });
+                        for (a, b) in outs {
+                            if a != alone || b != alone {
+                                println!("MISMATCH concurrent callers vs lone caller (c10c, builder={builder})");
+                                bad = true;
+                            }
+                        }
+                    }};
+                }
+                if builder {
+                    go!(|p: &Vec<f64>| builder_model(xs.clone(), p));
+                } else {
+                    go!(|p: &Vec<f64>| Hand { x: xs.clone(), p: DVector::from_vec(p.clone()) });
+                }
+            }
+        }
         _ => {
-            eprintln!("usage: vpmiri c10|c11 <seed> [threads]");
+            eprintln!("usage: vpmiri c10|c10c|c11 <seed> [threads]");
             std::process::exit(2);
         }
     }
